@@ -35,6 +35,7 @@ MATCH_IN = {
     'chat': {'Packet', 'cb.Chat'},
     'pos': {'Packet', 'cb.Position'},
     'time': {'Packet', 'cb.TimeUpdate'},
+    'pmsg': {'Packet', 'cb.PluginMessage', 'AbstractPluginMessage'},
     'unknown': {'Packet'},
     'plugin-req': {'Packet', 'cb.login.PluginRequest'},
     'login-success': {'Packet'},
@@ -145,6 +146,18 @@ def scenario_for(seed, index, tier):
             hist.append(['unknown', uid, '%02x' % j])
     writes = [[rng.choice(['q', 'f']), 'out%d' % j]
               for j in range(rng.choice([0, 0, 1, 3, 6]))]
+    rp = make_rng('pmsg', ID, seed, index)
+    if rp.random() < 0.35:
+        # play-state plugin messages (brand channel and the like), and
+        # listeners that ask for that class or its abstract super-class
+        for j in range(rp.choice([1, 2])):
+            hist.insert(rp.randrange(len(hist) + 1),
+                        ['plugin', 'c13:%d' % j, '%02x%02x' % (j, 7)])
+        for l in listeners:
+            if not l['outgoing'] and len(l['types']) < 3 and \
+                    rp.random() < 0.5:
+                l['types'].append(rp.choice(['cb.PluginMessage',
+                                             'AbstractPluginMessage']))
     sc = {
         'proto': proto, 'listeners': listeners, 'login': login,
         'history': hist, 'writes': writes,
@@ -284,6 +297,8 @@ def reference(sc):
             incoming.append((('time', it[1]), 'time'))
         elif it[0] == 'unknown':
             incoming.append((('unknown', it[1]), 'unknown'))
+        elif it[0] == 'plugin':
+            incoming.append((('pmsg', it[1]), 'pmsg'))
     incoming.append((('disconnect',), 'disconnect'))
     exp_in = []
     compression_reacted = True
@@ -480,6 +495,8 @@ def execute(scenario, tape):
              'cb.Chat': cb.play.ChatMessagePacket,
              'cb.Position': cb.play.PlayerPositionAndLookPacket,
              'cb.TimeUpdate': cb.play.TimeUpdatePacket,
+             'cb.PluginMessage': cb.play.PluginMessagePacket,
+             'AbstractPluginMessage': P.AbstractPluginMessagePacket,
              'cb.login.PluginRequest': cb.login.PluginRequestPacket,
              'cb.login.SetCompression': cb.login.SetCompressionPacket,
              'cb.play.Disconnect': cb.play.DisconnectPacket,
@@ -498,6 +515,8 @@ def execute(scenario, tape):
             n = p.packet_name
             if type(p) is Packet:
                 return ('unknown', p.id), 'unknown'
+            if isinstance(p, cb.play.PluginMessagePacket):
+                return ('pmsg', p.channel), 'pmsg'
             if n == 'keep alive':
                 return ('ka', p.keep_alive_id), 'ka'
             if n == 'player position and look':
